@@ -39,8 +39,8 @@ CHECKS = {
          "Structural necessary conditions on all paths (0,1,2+ ports): every created endpoint is registered under its port and bound to it; stop looks up and closes every registered open transport and cannot raise; the running flag has exactly three writers, set last in start and never on a raising exit, cleared last in stop; a failing bind releases the transports acquired earlier; the context manager pairs start/stop and does not swallow exceptions. Socket release timing and callback quiescence after close() are asyncio behaviour (trusted).", "§4 C17"),
  "C18": ("other", "path/event analysis of connect/disconnect/__aenter__/__aexit__ on fresh and connected instances; flag-writer sweep",
          "Structural necessary conditions on all paths: the connected flag is written only by __init__/connect/disconnect; connect sets it after the awaited open_connection returned and both streams are stored, never on the refused path; disconnect closes then awaits wait_closed before clearing it and touches nothing before any connect; context exit always disconnects and returns falsy; connect does not depend on earlier state (reconnectable). EOF at the peer and idempotence of close() are asyncio behaviour (trusted).", "§4 C18"),
- "C13": ("other", "clock-domain tagging of the function's clock reads; provenance of the named weekday through the abstract interpreter (element-of the selected weekdays); template and guard shape of the 'today' answer",
-         "Decides four clauses only: every 'now' read is a LOCAL clock read; the weekday named in 'Due next <weekday>' is Days.value of an element of the selected days; no days => 'Due today' without reading the clock and every answer is one of three templates with the unmodified start; 'today' is answered exactly under (weekday(now) selected) and (now < start). That the chosen day is the EARLIEST upcoming occurrence is arithmetic over 7x128x3 cases whose decision is execution, outside this family: NOT decided (a defect of exactly that kind was found by reading and fixed, see known_findings.json).", "§4 C13"),
+ "C13": ("proof", "normal forms of every answer of pretty_next_run by abstract interpretation (guards, provenance of the chosen/named day, sort/filter shape) compared with the accepted forms, plus a stated weekday lemma; clock-domain tagging of the clock reads",
+         "Proof by normal form plus a stated arithmetic lemma on weekdays 0..6 (no case of weekday/day set/time order is evaluated): 'now' is a LOCAL clock read; no days => 'today'; 'today' exactly under (today selected and now < start); otherwise the selected weekdays are sorted ascending and the first one strictly after today is chosen, else the first selected weekday (=> nearest future occurrence, a full week ahead when only today is selected); 'tomorrow' exactly when the chosen day is today+1 (Sunday->Monday included), else 'next <Days.value of the chosen selected day>'; every answer is one of three templates with the unmodified start time. strptime/strftime and the host clock are trusted.", "§4 C13"),
  "C15": ("other", "path-sensitive typestate on the key list of build_command (case split over enum members, symbolic temperature/fan/IR map): order of guarded map lookups per path; normal forms of payload and length; table inverses; AST shape rules for capabilities",
          "Structural clauses decided on all ~8000 guarded paths: key grammar and fallback order (swing dropped first, then fan, ...), membership test and final lookup on the same map, first hit used, clamping decided before the key is built, unsupported modes refused before any lookup, payload = 00000000 ++ hex(Para|HexCode) of the entry under the final key, length = LE16 of the payload size for every size (A5), inverse/total command tables, capability flags read from the set, remote cache keyed by the id. That the entry reached is the most specific PRESENT in a given IR set is a data-dependent search and is NOT decided beyond the loop's shape.", "§4 C15"),
  "C16": ("other", "path/event analysis of control_breeze_device for all given/omitted combinations of the enum settings: arguments reaching build_command and the status frame traced to requested value or to the same-role field of this call's state reply; guard analysis of the reply checks",
